@@ -1038,4 +1038,31 @@ Section Units.
         cbn [m_reg]. apply be_length.
     Qed.
   End AllModes.
+
+  (* ---- encrypt_stream / decrypt_stream: the read() boundaries of the input stream do not matter --- *)
+
+  Lemma feed_stream_all m d pad k : forall reads fo,
+    feed_stream E D m d pad k fo reads = feed_all E D m d pad k fo (until_empty reads).
+  Proof.
+    induction reads as [|c cs IH]; intro fo; [reflexivity|].
+    destruct c as [|x c']; [reflexivity|].
+    cbn [feed_stream until_empty feed_all]. change (@Some (list byte)) with (@Some bytes).
+    destruct (feed E D m d pad k fo (@Some bytes (x :: c'))) as [[o fo']|e]; [|reflexivity].
+    cbn [bind]. rewrite IH. reflexivity.
+  Qed.
+
+  Lemma until_empty_all reads : Forall (fun c : bytes => c <> []) reads -> until_empty reads = reads.
+  Proof.
+    induction 1 as [|c cs Hc _ IH]; [reflexivity|].
+    destruct c; [contradiction|]. cbn [until_empty]. rewrite IH. reflexivity.
+  Qed.
+
+  Theorem crypt_stream_split
+    (E_len : forall k b, length b = 16%nat -> length (E k b) = 16%nat) m d pad k iv ctr reads :
+    crypt_stream E D m d pad k iv ctr reads =
+    stream_crypt E D m d pad k iv ctr [concat (until_empty reads)].
+  Proof.
+    rewrite <- (stream_crypt_split E_len). unfold crypt_stream, stream_crypt.
+    destruct (mode_init m k iv ctr) as [st|e]; [|reflexivity]. cbn [bind]. apply feed_stream_all.
+  Qed.
 End Units.
